@@ -184,3 +184,5 @@ def run(ctx):
     cancellation.check(ctx, ctx.crate("rel"), ['proj', 'unproj', 'base_cell_from_proj_coo'], floor=8)
     from rules import controls
     controls.guard_controls(ctx)
+    from rules import controls as _controls
+    _controls.feval_controls(ctx)
